@@ -9,7 +9,7 @@ out=/verif/seeded/$name
 mkdir -p $out
 cd $wt || exit 2
 cp seed_out/patch.diff seed_out/demo.sh seed_out/meta.json $out/ 2>/dev/null
-git stash -q -- src 2>/dev/null || git checkout -q -- src
+git checkout -q -- src
 make -f Makefile.gnu -j16 bin/nanoc_c nano_virt nano_vm nano_cop nano_vmd >/dev/null 2>&1
 bash $out/demo.sh $wt >$out/demo_clean.log 2>&1; rc_clean=$?
 git apply $out/patch.diff || { echo "PATCH DOES NOT APPLY"; exit 2; }
